@@ -254,9 +254,10 @@ func (b *Bundle) Hold(holder string, leaf jx.Obj, depth int, key string) jx.Obj 
 		case "not":
 			cur = jx.Obj{"description": b.lbl("hn"), "not": cur}
 		case "patternProperties":
-			cur = jx.Obj{"type": "object", "description": b.lbl("hpp"), "patternProperties": jx.Obj{"^" + key: cur}}
+			// with a complex sibling of different content under another pattern
+			cur = jx.Obj{"type": "object", "description": b.lbl("hpp"), "patternProperties": jx.Obj{"^" + key: cur, "^sib_": b.Obj(), "^zib_": jx.Obj{"type": "array", "description": b.lbl("zs"), "items": b.Obj()}}}
 		case "schemaDefinitions":
-			cur = jx.Obj{"type": "object", "description": b.lbl("hsd"), "definitions": jx.Obj{key: cur}, "properties": jx.Obj{"p": jx.Obj{"type": "string"}}}
+			cur = jx.Obj{"type": "object", "description": b.lbl("hsd"), "definitions": jx.Obj{key: cur, "sibDef": b.Obj()}, "properties": jx.Obj{"p": jx.Obj{"type": "string"}}}
 		default:
 			panic("unknown holder " + holder)
 		}
